@@ -491,7 +491,24 @@ def c09_obligations(repo_root, tier):
                     continue      # numbers / strings are immutable: `n += 1` re-binds the local
                 if isinstance(n.op, (ast.BitOr, ast.BitAnd, ast.Add, ast.Sub, ast.BitXor, ast.Mult)):
                     bad.append(f"{m.name}:{qual} mutates its parameter in place: {ast.unparse(n)}")
-    ob("liquid2/frame.no-memo", not bad, "no memoising decorator or call, no mutable default argument, no in-place augmented assignment to a parameter in the package" if not bad else "; ".join(bad[:5]),
+        # ... and to a local that is a plain alias of an attribute of self / a parameter (`d = self.disabled; d |= more`): the
+        # update goes to the object the attribute holds (a class-level set, a node's list), not to a copy
+        alias = {}
+        for st in own_nodes(fn):
+            if isinstance(st, ast.Assign) and len(st.targets) == 1 and isinstance(st.targets[0], ast.Name):
+                v = st.value
+                if isinstance(v, ast.Attribute) and isinstance(v.value, ast.Name) and v.value.id in pnames:
+                    alias.setdefault(st.targets[0].id, []).append((st.lineno, ast.unparse(v)))
+                else:
+                    alias.setdefault(st.targets[0].id, []).append((st.lineno, None))
+        for n in own_nodes(fn):
+            if isinstance(n, ast.AugAssign) and isinstance(n.target, ast.Name) and n.target.id in alias and n.target.id not in pnames \
+                    and isinstance(n.op, (ast.BitOr, ast.BitAnd, ast.Sub, ast.BitXor)):
+                binds = alias[n.target.id]
+                # every binding of the local is an alias of an attribute (a binding to a fresh value - set(..), copy - makes it a local object)
+                if all(src is not None for _ln, src in binds):
+                    bad.append(f"{m.name}:{qual} updates {binds[0][1]} in place through the alias `{n.target.id}`: {ast.unparse(n)}")
+    ob("liquid2/frame.no-memo", not bad, "no memoising decorator or call, no mutable default argument, no in-place augmented assignment to a parameter (or to an alias of an attribute of one) in the package" if not bad else "; ".join(bad[:5]),
        witness={"sites": bad} if bad else None)
 
     # (d) render-time methods write only through context / buffer / per-render locals
